@@ -151,6 +151,28 @@ def opsEm (a : Array String) : Option String :=
       let covs := (List.finRange (F' + 1)).flatMap fun f => (List.finRange (K' + 1)).flatMap fun k =>
         (List.finRange D).flatMap fun d => (List.finRange D).map fun e => rd2 (rd (θ'.c k) f).cov d e
       some (out ++ " | " ++ fmtFloats means ++ " | " ++ fmtFloats covs)
+    | "vmf" =>
+      -- after the header:  lo hi  y[N*D] (unit norm)  weight[K*N]  mean[F*K*D]  kappa[F*K]  lognorm[F*K]
+      let lo := tokFloat a o
+      let hi := tokFloat a (o + 1)
+      let oy := o + 2
+      let yv : Tab N (Tab D Float) := tab2 fun n d => fl a oy (n.val * D + d.val)
+      let yT : Tab N (Fin (F' + 1) × (Fin D → Float)) := tab fun n => (rd sl n, rd (rd yv n))
+      let ow := oy + N * D
+      let om := ow + (K' + 1) * N
+      let ok := om + (F' + 1) * (K' + 1) * D
+      let ol := ok + (F' + 1) * (K' + 1)
+      -- the log-normaliser of the NEW concentration is not printed, so the external is not evaluated here
+      let fam := sliced (F := F' + 1) (vmfFamily D (fun x => x) lo hi tinyE)
+      let θ : Mixture (Tab (F' + 1) (Vmf Float D)) Float (K' + 1) N :=
+        ⟨tab2 fun k n => fl a ow (k.val * N + n.val),
+         tab fun k => tab fun f => ⟨tab fun d => fl a om ((f.val * (K' + 1) + k.val) * D + d.val),
+                                    fl a ok (f.val * (K' + 1) + k.val), fl a ol (f.val * (K' + 1) + k.val)⟩⟩
+      let (out, θ') := stepCommon fam h tie s (rd yT) θ
+      let means := (List.finRange (F' + 1)).flatMap fun f => (List.finRange (K' + 1)).flatMap fun k =>
+        (List.finRange D).map fun d => rd (rd (θ'.c k) f).mean d
+      let kap := (List.finRange (F' + 1)).flatMap fun f => (List.finRange (K' + 1)).map fun k => (rd (θ'.c k) f).kappa
+      some (out ++ " | " ++ fmtFloats means ++ " | " ++ fmtFloats kap)
     | "watson" =>
       let yT : Tab N (Tab D CF) := tab2 fun n d => cx a o (n.val * D + d.val)
       let y : Fin N → Fin D → CF := fun n => rd (rd yT n)
